@@ -250,13 +250,13 @@ class Runner:
         return out
 
     # ------------------------------------------------------------------ solving
-    def make_query(self, eng, o, with_defs, extra=()):
+    def make_query(self, eng, o, with_defs, extra=(), strict=False):
         goal = o["goal"]
         neg = z3.Not(goal)
         pc = list(o["pc"]) + list(extra)
         if with_defs:
             pc += o.get("defs", [])
-        rel = eng.slice_pc(pc, [neg])
+        rel = eng.slice_pc(pc, [neg], strict=strict)
         flags = set(eng.expr_info(neg)[1])
         for c in rel:
             flags |= eng.expr_info(c)[1]
@@ -282,12 +282,33 @@ class Runner:
         for ent, eng, o in jobs:
             q0 = self.make_query(eng, o, with_defs=False)
             q1 = self.make_query(eng, o, with_defs=True) if o.get("defs") else None
-            prepared.append((ent, eng, o, q0, q1))
+            # strict slices (branch conditions over irrelevant variables dropped): only their `unsat` is used
+            qs = []
+            if o["kind"] != "witness" and getattr(ent, "strict_first", True):
+                s0 = self.make_query(eng, o, with_defs=False, strict=True)
+                if s0["txt"] != q0["txt"]:
+                    qs.append(s0)
+                if q1 is not None:
+                    s1 = self.make_query(eng, o, with_defs=True, strict=True)
+                    if s1["txt"] != q1["txt"]:
+                        qs.append(s1)
+            prepared.append((ent, eng, o, q0, q1, qs))
 
         def work(job):
-            ent, eng, o, q, q1 = job
+            ent, eng, o, q, q1, qs = job
             cap = min(self.cap, 10.0) if o["kind"] in ("ub", "def", "mem") else ent.cap
+            pre_secs = 0.0
+            pre_answers = {}
+            for k, sq in enumerate(qs):
+                v, who, secs, answers = pf.solve_text(sq["txt"], sq["txt_cvc5"], sq["tag"], cap=min(cap, self.quick_cap), quick_only=True)
+                pre_secs += secs
+                pre_answers.update({"strict%d:%s" % (k, kk): a for kk, a in answers.items()})
+                if v == "unsat":
+                    return dict(ent=ent, eng=eng, o=o, verdict=v, solver=who, secs=pre_secs, answers=pre_answers, q=sq,
+                                used_defs=False)
             v, who, secs, answers = pf.solve_text(q["txt"], q["txt_cvc5"], q["tag"], cap=cap)
+            secs += pre_secs
+            answers.update(pre_answers)
             used_defs = False
             if v != "unsat" and q1 is not None:
                 q = q1
